@@ -2,7 +2,7 @@ package rrc
 
 //symgo:pkg github.com/pion/dtls/v3/internal/rrc
 //symgo:param NOPS quick=3 thorough=4
-//symgo:param NCAND quick=1 thorough=2
+//symgo:param NOPS2 quick=2 thorough=3
 //symgo:stub time.Now is replaced by a harness clock: every call returns a fresh symbolic instant that is >= the previous one (arbitrary non-decreasing clock, 0 <= sec < 2^40)
 //symgo:stub time.AfterFunc / Timer.Stop / Timer.Reset are replaced: the callback is recorded and may be fired by the harness at any point between operations (spurious firing allowed)
 //symgo:stub crypto/rand.Read is replaced by a reader that returns fresh symbolic bytes (and records them)
@@ -394,16 +394,29 @@ func zzChallengeStart() {
 // ---------------------------------------------------------------- bounded traces
 
 // Anti-amplification over whole histories: from a fresh Manager, every sequence of NOPS operations drawn from
-// {record of n bytes received from a candidate (NCAND of them) or the validated address, Reserve of n bytes towards
-// a candidate, Start(candidate), path response from a candidate with the outstanding or an arbitrary
-// cookie, fire any armed timer}, sizes 0 <= n <= 65535 symbolic, clock advancing arbitrarily (non-decreasing)
-// at every reading. Ghost totals kept by the harness (independent of Manager's counters, which are reset on
-// expiry and on validation) prove: for every address that is not validated, total bytes granted by Reserve
-// <= 3 * total bytes recorded as received from it; and a response is accepted only for a cookie issued by
-// Start for that address, not answered before, and earlier than one second after that Start.
+// {record of n bytes received from the candidate address or the validated address, Reserve of n bytes towards
+// the candidate, Start(candidate), path response from the candidate with the outstanding or an arbitrary
+// cookie, fire any armed timer, Cancel}, sizes 0 <= n <= 65535 symbolic, clock advancing arbitrarily
+// (non-decreasing) at every reading. Ghost totals kept by the harness (independent of Manager's counters,
+// which are reset on expiry and on validation) prove: for every address that is not validated, total bytes
+// granted by Reserve <= 3 * total bytes recorded as received from it; and a response is accepted only for a
+// cookie issued by Start for that address, not answered before, and earlier than one second after that Start.
 //
 //symgo:entry covers=trace_granted,trace_refused,trace_validated,trace_timer_fired
 func zzAmpTrace() {
+	zzAmpTraceRun(zzsymParam("NOPS"), 1)
+}
+
+// The same history model with two candidate addresses racing (operations may target either), NOPS2 operations:
+// same claims; in addition a cookie issued to one candidate never validates the other, and validating one
+// candidate consumes the other's challenge.
+//
+//symgo:entry covers=trace_granted,trace_refused,trace_validated,trace_timer_fired
+func zzAmpTraceTwoCandidates() {
+	zzAmpTraceRun(zzsymParam("NOPS2"), 2)
+}
+
+func zzAmpTraceRun(nops, ncand int) {
 	m := &Manager{}
 	active := 0
 	var recv, sent [3]uint64
@@ -411,8 +424,6 @@ func zzAmpTrace() {
 	var chPending [3]bool
 	var chCookie [3][protocol.ReturnRoutabilityCheckCookieLength]byte
 	var chSec, chNs [3]int64
-	nops := zzsymParam("NOPS")
-	ncand := zzsymParam("NCAND") // candidate addresses 1..ncand besides the validated one
 	for step := 0; step < nops; step++ {
 		op := zzsymChoice("op", 6)
 		switch op {
@@ -452,9 +463,12 @@ func zzAmpTrace() {
 			}
 		case 3: // a path response arrives
 			from := 1 + zzsymChoice("from", ncand)
-			cookie := chCookie[from]
-			if zzsymChoice("forged", 2) == 1 {
+			cookie := chCookie[from] // the cookie last issued to this address (zero if none)
+			switch zzsymChoice("cookie_kind", 1+ncand) {
+			case 1:
 				cookie = zzSymCookie("forged_cookie")
+			case 2:
+				cookie = chCookie[3-from] // the cookie issued to the other candidate
 			}
 			got := m.HandleResponse(zzAddrOf(from), cookie)
 			if got {
